@@ -637,6 +637,13 @@ func cmdCheck(args []string) int {
 		f := founds[k]
 		if f.V.Prop != id {
 			fmt.Printf("NOTE other-property=%s invariant=%s count=%d sig=%q (not decided by this check)\n", f.V.Prop, f.V.Invariant, f.Count, f.V.Sig)
+			if os.Getenv("BSIM_NOTE_REPLAYS") != "" && f.Plan != nil {
+				// development aid: keep the plan of a note so that it can be looked at
+				path := filepath.Join(replayDir, fmt.Sprintf("NOTE-%s-%s.json", f.V.Prop, shortHash(k)))
+				b, _ := json.MarshalIndent(ReplayFile{Violation: f.V, Seed: seed, Run: f.Plan.Run, Plan: f.Plan}, "", " ")
+				os.WriteFile(path, b, 0o644)
+				fmt.Printf("  note plan: %s (runs %v)\n", path, f.Runs)
+			}
 			continue
 		}
 		matched := -1
